@@ -119,6 +119,19 @@ b("B24", TX, None, None, "rename parameter use_test_rng -> test_mode in tx.rs (w
 b("B25", UPD, None, None, "rename reverted_total -> rev_sum and locked_total -> held_sum in updater.rs")
 b("B26", FOREIGN, None, None, "rename parameter slate -> incoming in foreign.rs finalize_tx/receive_tx (word-boundary, whole file)")
 
+b("B29", FOREIGN,
+  "\tfor t in &tx {\n\t\tif t.tx_type == TxLogEntryType::TxReceived {\n\t\t\treturn Err(Error::TransactionAlreadyReceived(ret_slate.id.to_string()));\n\t\t}\n\t}\n",
+  "\tif tx.iter().any(|t| t.tx_type == TxLogEntryType::TxReceived) {\n\t\treturn Err(Error::TransactionAlreadyReceived(ret_slate.id.to_string()));\n\t}\n",
+  "duplicate test written with iter().any(..)")
+b("B30", TX,
+  "\tmatch tx.tx_type {\n\t\tTxLogEntryType::TxSent | TxLogEntryType::TxReceived | TxLogEntryType::TxReverted => {}\n\t\t_ => return Err(Error::TransactionNotCancellable(tx_id_string)),\n\t}\n",
+  "\tif !matches!(\n\t\ttx.tx_type,\n\t\tTxLogEntryType::TxSent | TxLogEntryType::TxReceived | TxLogEntryType::TxReverted\n\t) {\n\t\treturn Err(Error::TransactionNotCancellable(tx_id_string));\n\t}\n",
+  "cancellable-type test written with matches!")
+b("B31", LMDB,
+  "\t\tfor i in 0..SECRET_KEY_SIZE {\n\t\t\ts_ctx.sec_key.0[i] ^= blind_xor_key[i];\n\t\t\ts_ctx.sec_nonce.0[i] ^= nonce_xor_key[i];\n\t\t}",
+  "\t\tfor (b, k) in s_ctx.sec_key.0.iter_mut().zip(blind_xor_key.iter()) {\n\t\t\t*b ^= *k;\n\t\t}\n\t\tfor (b, k) in s_ctx.sec_nonce.0.iter_mut().zip(nonce_xor_key.iter()) {\n\t\t\t*b ^= *k;\n\t\t}",
+  "masking loop written with iter_mut().zip(..)")
+
 
 def _apply(mu, repo_copy):
     p = os.path.join(repo_copy, mu["file"])
@@ -152,7 +165,7 @@ def _apply(mu, repo_copy):
     elif bid == "B26":
         import re
         src, n = re.subn(r"\bslate\b(?!::)", "incoming", src)
-        assert n >= 5
+        assert n >= 2
     elif bid == "B21":
         assert src.count("tx_vec") >= 4
         src = src.replace("tx_vec", "entries")
